@@ -1,24 +1,33 @@
-"""Per-property configuration of the check driver (see ./check)."""
+"""Per-property configuration of the check driver: one JSON file per property in props.d/.
 
-SQLITE_ENV = "SQLite (mattn/go-sqlite3 1.14.24) evaluates the generated statements as SQL defines; validated by the same runs"
+Keys of props.d/Cxx.json:
+  cmd              harness command directory under harness/cmd/ (e.g. "c15")
+  level_text       MANIFEST level_claimed.text
+  level_note       MANIFEST level_note (trusted base / what is assumed)
+  trusted_base     list of strings copied into the evidence
+  assumptions      list of strings copied into the evidence
+  technique        (optional) MANIFEST technique
+  props_mods       (optional) Coq modules holding the property theorems (default ["Props_Cxx"])
+  check_mod        (optional) Coq module with `case` and `check_case` (default "Cxx_Check")
+  extra_mods       (optional) further Coq modules to build
+  facts            (optional, bool) property uses facts regenerated from /repo (harness/facts + coq/facts/FactsOK_Cxx.v)
+  go_build_flags   (optional) e.g. ["-race"]
+  harness_timeout  (optional) {"quick": seconds, "thorough": seconds}
+  search_cap       (optional) max cases of the failing-input search after a broken tie
+  coqchk           (optional, bool, default true) run coqchk in the thorough tier
+"""
+import glob, json, os
 
-HOOK_COMMITS = []
+ROOT = os.path.dirname(os.path.abspath(__file__))
+HOOK_COMMITS = json.load(open(os.path.join(ROOT, "hooks.json")))["source_commits"]
 
-# properties not (yet) decided by a check: kept current with the reason
+PROPS = {}
+for f in sorted(glob.glob(os.path.join(ROOT, "props.d", "C*.json"))):
+    PROPS[os.path.basename(f)[:-5]] = json.load(open(f))
+
+_NA_REASONS = json.load(open(os.path.join(ROOT, "not_applicable.json")))
+ALL_IDS = ["C%02d" % i for i in range(1, 21)]
 NOT_APPLICABLE = [
-    {"property_id": "C%02d" % i, "reason": "check under construction in this session (model/theorems/harness not yet committed); see DESIGN.md §10 build order"}
-    for i in range(1, 21) if i != 15
+    {"property_id": p, "reason": _NA_REASONS.get(p, "check under construction in this session (model, theorems and harness not yet committed); see DESIGN.md section 10 for the build order")}
+    for p in ALL_IDS if p not in PROPS
 ]
-
-PROPS = {
-    "C15": {
-        "cmd": "c15",
-        "level_text": "Theorems (Props_C15.v) over the Gallina model of Limit.MergeClause/Build, First/Last/Take/Count and the FindInBatches loop: for every table, batch size, limit and offset the batches concatenate to exactly what Find returns, in key order, none empty or oversized, and the loop terminates; Limit/Offset override/cancel rules for every chain. Unbounded (induction), closed under the global context. The model is tied to /repo on every run by evaluating it in Coq on the inputs the real gorm+SQLite just ran and comparing every read path.",
-        "level_note": "Trusted: Coq kernel + vm_compute; the hand-written model (tied only by the per-run correspondence, ~500 cases quick); the Go harness and the check driver; SQLite's row order/LIMIT semantics. scan.go destination dispatch is covered by the correspondence only (partial).",
-        "trusted_base": [
-            "model C15_Model.v of clause/limit.go (Build, MergeClause), chainable_api.go Limit/Offset, finisher_api.go First/Last/Take/Count/FindInBatches, hand-written; tied to /repo by the per-run correspondence only",
-            "scan.go destination dispatch (struct/map/Rows/Scan/Pluck) is modelled as 'returns the statement's rows': partial, correspondence only",
-        ],
-        "assumptions": [SQLITE_ENV, "rowid tables return rows in primary-key order when no ORDER BY is given (SQLite behaviour)"],
-    },
-}
